@@ -2,6 +2,7 @@ package main
 
 import (
 	"fmt"
+	"os"
 	"go/ast"
 	"go/constant"
 	"go/token"
@@ -960,6 +961,10 @@ func (ex *Exec) enterLoop(fr *Frame, li *loopInfo, h *ssa.BasicBlock, st *State,
 				h0 := ex.heapGet(st, hk)
 				cur := h0
 				okAll := true
+				base = append([]ssa.Value{}, base...)
+				sort.Slice(base, func(i, j int) bool {
+					return ex.valKey(base[i]) < ex.valKey(base[j])
+				})
 				for _, bv := range base {
 					bval, have := fr.vals[bv]
 					if !have {
@@ -985,7 +990,19 @@ func (ex *Exec) enterLoop(fr *Frame, li *loopInfo, h *ssa.BasicBlock, st *State,
 			}
 			ex.havocKey(st, hk)
 		}
+		var localList []*ssa.Alloc
 		for a := range mods.locals {
+			localList = append(localList, a)
+		}
+		sort.Slice(localList, func(i, j int) bool {
+			return ex.valKey(localList[i]) < ex.valKey(localList[j])
+		})
+		if os.Getenv("GOVC_DEBUG_LOCALS") != "" {
+			for _, a := range localList {
+				fmt.Fprintf(os.Stderr, "loop %d local %s %s pos=%d\n", li.ordinal, a.Name(), a.Comment, a.Pos())
+			}
+		}
+		for _, a := range localList {
 			st.locals[a] = c.Fresh("loc_"+a.Comment, ex.W.SortOf(a.Type().(*types.Pointer).Elem()))
 			ex.assume(ex.W.WF(a.Type().(*types.Pointer).Elem(), st.locals[a], 0))
 		}
@@ -996,7 +1013,17 @@ func (ex *Exec) enterLoop(fr *Frame, li *loopInfo, h *ssa.BasicBlock, st *State,
 		}
 	}
 	fresh := map[*ssa.Phi]Val{}
-	for phi := range phiVals {
+	var phiList []*ssa.Phi
+	for _, in := range h.Instrs {
+		if phi, ok := in.(*ssa.Phi); ok {
+			if _, have := phiVals[phi]; have {
+				phiList = append(phiList, phi)
+			}
+		} else {
+			break
+		}
+	}
+	for _, phi := range phiList {
 		name := phi.Comment
 		if name == "" {
 			name = phi.Name()
@@ -1142,6 +1169,17 @@ func (ex *Exec) autoInvariants(fr *Frame, li *loopInfo, h *ssa.BasicBlock) []aut
 		}})
 	}
 	return out
+}
+
+// valKey orders SSA values independently of the file set's load order (token.Pos offsets are not stable
+// across runs when files are parsed concurrently).
+func (ex *Exec) valKey(v ssa.Value) string {
+	p := ex.Prog.Fset.Position(v.Pos())
+	fn := ""
+	if in, ok := v.(ssa.Instruction); ok && in.Parent() != nil {
+		fn = in.Parent().String()
+	}
+	return fmt.Sprintf("%s:%09d:%s:%s", p.Filename, p.Offset, fn, v.Name())
 }
 
 // ---------------------------------------------------------------- anchors
